@@ -397,6 +397,17 @@ func (n *authNet) tokenServer(c *authHostCfg, req *http.Request, body string) *h
 	if lt != 0 {
 		out["expires_in"] = lt
 	}
+	if c.TokenMode == "varying-fields" {
+		// like a token service whose endpoints answer with different fields: odd answers carry token,
+		// access_token and expires_in; even ones access_token alone (default lifetime)
+		if n.ntok%2 == 1 {
+			out["access_token"] = tok
+		} else {
+			out = map[string]any{"access_token": tok}
+			life = 60 * time.Second
+			n.issued[len(n.issued)-1].Lifetime = life
+		}
+	}
 	data, _ := json.Marshal(out)
 	return respond(req, 200, nil, string(data))
 }
